@@ -10,7 +10,7 @@
    Fixes D t m : some component of the first region of t (the part above the next shifts) fixes
    the mode m: an annotated node, the target of a shift, or — through a reference without a mode of
    its own — a component of the referenced definition's body. *)
-Require Import Grits.Base Grits.ModeDefs Grits.Modes Grits.STypes.
+Require Import Grits.Base Grits.ModeDefs Grits.Modes Grits.STypes Grits.Infer.
 
 Inductive Fixes (D : tenv) : sty -> mode -> Prop :=
 | Fx_NameAnn x m : m <> Unset -> Fixes D (TName x m) m
@@ -62,3 +62,17 @@ Fixpoint shifts_set (t : sty) : Prop :=
   end
 with shifts_set_brs (b : brs) : Prop :=
   match b with BNil => True | BCons _ a r => shifts_set a /\ shifts_set_brs r end.
+
+(* ---- source-level environments, for the statement of annotation stability ----
+   a definition of the source: its name, its head annotation (Unset = none written; the parser
+   yields `mode_of_string word` otherwise, which is never Unset) and its initial type *)
+Definition src_def : Type := (string * mode * ity)%type.
+Definition conv1 (s : src_def) : tdef :=
+  let '(x, h, t) := s in {| td_name := x; td_body := to_sty h t; td_mode := Unset |}.
+Definition conv (S : list src_def) : tenv := map conv1 S.
+
+(* write, at the head of every definition that has no annotation, the mode recorded for it in R *)
+Definition annotate1 (R : tenv) (s : src_def) : src_def :=
+  let '(x, h, t) := s in
+  (x, (if is_unset h then match tlookup R x with Some d => td_mode d | None => h end else h), t).
+Definition annotate (R : tenv) (S : list src_def) : list src_def := map (annotate1 R) S.
